@@ -14,6 +14,8 @@ CONSTANTS
   PkgReplace = FALSE
   MaxFault = 2
   MaxCrash = 2
+  Planned = TRUE
   GenDepth = 32
+ACTION_CONSTRAINT GenBias
 INVARIANT GenPrint
 CHECK_DEADLOCK FALSE
